@@ -128,18 +128,25 @@ class ProducersScan(FiniteTask):
                 for n in ast.walk(f):
                     if isinstance(n, ast.Call) and isinstance(n.func, ast.Attribute) and n.func.attr == "put" \
                             and "event_queue" in ast.unparse(n.func.value):
+                        def leaves(e):
+                            """the values an expression can take: a literal, either branch of a conditional expression,
+                            otherwise the expression's text"""
+                            if isinstance(e, ast.Constant):
+                                return [e.value]
+                            if isinstance(e, ast.IfExp):
+                                return leaves(e.body) + leaves(e.orelse)
+                            return [ast.unparse(e)]
                         arg = n.args[0]
-                        if isinstance(arg, ast.Constant):
-                            vals = [arg.value]
-                        elif isinstance(arg, ast.Name):
+                        if isinstance(arg, ast.Name):
                             vals = []
                             for a in ast.walk(f):
-                                if isinstance(a, ast.Assign) and any(isinstance(t, ast.Name) and t.id == arg.id for t in a.targets):
-                                    vals.append(a.value.value if isinstance(a.value, ast.Constant) else ast.unparse(a.value))
+                                if isinstance(a, (ast.Assign, ast.AnnAssign)) and a.value is not None and any(
+                                        isinstance(t, ast.Name) and t.id == arg.id for t in (a.targets if isinstance(a, ast.Assign) else [a.target])):
+                                    vals += leaves(a.value)
                                 if isinstance(a, ast.Assign) and any(isinstance(t, ast.Tuple) and any(isinstance(x, ast.Name) and x.id == arg.id for x in t.elts) for t in a.targets):
                                     vals.append(ast.unparse(a.value))
                         else:
-                            vals = [ast.unparse(arg)]
+                            vals = leaves(arg)
                         sites.append((fn, f.name, n.lineno, vals))
         emit("C05/frame/event-producers-found", len(sites) >= 10, detail=f"{len(sites)} sites")
         allowed_expr = {"primitive.result", "self._decode_pdu(bytestream)"}
